@@ -168,6 +168,15 @@ func cmdEntropy(args []string) int {
 	lens := []int{0, 1, 2, 3, 15, 16, 31, 32, 33, 63, 64, 65, 255, 256, 257, 1023, 1024, 4095, 4096, 16383, 16384, 16385, 32767, 32768, 32769, 40000, 65536, 2*16384 + 7}
 	if *thorough {
 		lens = append(lens, 1<<20, 4<<20-1, 4<<20, 4<<20+1, 2*(4<<20)+7)
+	} else {
+		// the codecs with 4 MiB chunks are fast enough to cross a chunk boundary at every run
+		for _, codec := range []string{"FPAQ", "ANS1"} {
+			for k, l := range []int{4<<20 - 1, 4<<20 + 1, 2*(4<<20) + 7} {
+				for _, fam := range []string{"random", "text", "skew"} {
+					add(codec, l, fam, []int{0, 5, 8}[k])
+				}
+			}
+		}
 	}
 	fams := []string{"random", "text", "zeros", "skew", "runs", "dna", "ramp", "alpha:1", "alpha:2", "alpha:3", "alpha:64", "alpha:128", "alpha:256",
 		"rare:36:1", "rare:100:2", "rare:200:1", "rare:254:1", "rare:255:1", "rare:10:4"}
@@ -206,7 +215,10 @@ func cmdEntropy(args []string) int {
 		go func(i int) {
 			defer wg.Done()
 			defer func() { <-sem }()
-			evs[i] = runEntropy(cases[i])
+			if !guard(func() { evs[i] = runEntropy(cases[i]) }) {
+				evs[i] = tr.Ev{"ev": "ENT", "id": cases[i].ID, "codec": cases[i].Codec, "len": cases[i].Len, "fam": cases[i].Fam, "lead": cases[i].Lead,
+					"enc": "hang", "dec": "none", "encBits": 0, "decBits": 0, "same": false, "sentinel": false, "msg": "encoder or decoder did not return"}
+			}
 			b, _ := json.Marshal(cases[i])
 			evs[i]["desc"] = string(b)
 		}(i)
